@@ -57,6 +57,40 @@ LITERAL_PROGRAMS = [
 ]
 
 
+def literal_matrix():
+    """string literals of every prefix / quote style around contents that text-level stages like to touch, in four positions"""
+    contents = ["Options:\n\n    -v  verbose\n", "a  \nb\t\nc", "top\n\n\n\n\nbottom", "key:\n\n  nested:\n\n    leaf\n", "x\x0cy", "p\x0bq", "r\x1cs\x1dt\x1eu",
+                "one\u2028two\u2029three", "n\x85m", "  leading and trailing  \n   \n", "if x:\n\n\n    pass\n", "import os\nimport sys\n\n\n\nprint(1)\n", "a\\\nb"]
+    out = []
+    for prefix in ("", "r", "b", "f", "rb"):
+        for q in ("'" * 3, '"' * 3):
+            for c in contents:
+                if "b" in prefix and any(ord(ch) > 127 for ch in c):
+                    continue
+                if prefix == "f":
+                    c = c + "{1 + 1:>4}"
+                if q[0] in c:
+                    continue
+                lit = prefix + q + c + q
+                doc = lit if prefix == "" else "pass"
+                for prog in (f"X = {lit}\nprint(repr(X))\n", f"def g():\n    y = {lit}\n    return y\n\n\nprint(repr(g()))\n",
+                             f"def h():\n    {doc}\n    return 1\n\n\nprint(h.__doc__)\n", f"print(len([0, {lit}, 1]), repr({lit}))\n"):
+                    try:
+                        compile(prog, "<lit>", "exec")
+                    except (SyntaxError, ValueError):
+                        continue
+                    out.append(prog)
+    # one-line literals with raw separators that str.splitlines() knows and the tokenizer does not
+    for ch in ("\x0c", "\x0b", "\x1c", "\x1d", "\x1e", "\x85", "\u2028", "\u2029"):
+        for prog in (f"s = 'a{ch}b'\nprint(len(s))\n", f"t = ('x', 'y{ch}z')  # c{ch}d\nprint(t)\n", f"def k():\n    return 'q{ch}'\n\n\nprint(k())\n"):
+            try:
+                compile(prog, "<lit>", "exec")
+                out.append(prog)
+            except (SyntaxError, ValueError):
+                pass
+    return sorted(set(out))
+
+
 def task_stages(args):
     src, = args
     from pyrefact import fixes, processing
@@ -90,6 +124,7 @@ def stages_oracle(ctx):
     s = Suite("layout-ast", kind="oracle")
     base = sweep.baseline("C11")
     items = [(oracles.sha(p), p, "literal-program") for p in LITERAL_PROGRAMS]
+    items += [(oracles.sha(p), p, "literal-matrix") for p in literal_matrix()]
     items += sweep.pick(sweep.generated_corpus(), ctx, 40) + sweep.pick(sweep.generated_corpus2(), ctx, 36) + sweep.pick(sweep.example_corpus(), ctx, 40)
     items += [(oracles.sha(x), x, "whitespace") for x in sweep.whitespace_inputs()[:40]]
     results = oracles.pmap(task_stages, [(src,) for (_sha, src, _fam) in items])
@@ -102,7 +137,8 @@ def stages_oracle(ctx):
             if sweep.key(sha, {}, stage) in base:
                 continue
             s.disagreements.append({"sha": sha, "src": src, "stage": stage, "out": out, "family": fam, "what": f"layout stage {stage}: {why}"})
-    s.note = ("13 literal-heavy programs (triple-quoted with blank runs / trailing blanks / tabs, raw, bytes, f-strings with format specs, long lines, names starting with 'elif') + corpus + "
+    s.note = ("a matrix of string literals (5 prefixes x 2 quote styles x 13 contents: colon-blank-indent, trailing blanks, blank runs, form feed / VT / FS-GS-RS / NEL / "
+              "U+2028-9, code-like text; as module value, local, docstring, argument; plus one-line literals with raw separators) + 13 literal-heavy programs (triple-quoted with blank runs / trailing blanks / tabs, raw, bytes, f-strings with format specs, long lines, names starting with 'elif') + corpus + "
               "odd-layout inputs: ast.dump unchanged by fix_too_many_blank_lines, rmspace, sort_imports, fix_import_spacing, fix_line_lengths at 60/79/100/140, the diff minimisation")
     return s
 
